@@ -48,7 +48,6 @@ def check(ctx, rep):
         ok = len(outs) == 1 and term_callee_is(list(outs)[0], 'alloc::string::String::with_capacity', 'alloc::string::String::new')
         rep.ob('R3', 'line-formatted-into-fresh-string', ok, fm.format.where(), 'every call formats into its own newly allocated String' if ok else 'the formatter returns %s' % [fmt(x)[:80] for x in outs])
         K.rule_client_immutable(fm, rep, 'R3')
-        K.rule_send_metric(fm, rep, 'R3s')
     m = W.WriterModel(ctx, rep)
     if m.ok:
         W.rule_M1(m, rep)
@@ -57,4 +56,10 @@ def check(ctx, rep):
         W.rule_M8(m, rep)
         W.rule_M10(m, rep)
     S.rule_D2(ctx, rep)
-    S.rule_D3(ctx, rep)
+    # through a queuing wrapper only the worker thread may feed the buffered sink (one sequential consumer)
+    from .qmodel import QModel
+    from . import queuing as Qr
+    qm = QModel(ctx, rep)
+    if qm.ok:
+        Qr.rule_one_consumer(qm, rep, 'R4')
+    S.rule_D3(ctx, rep, methods=('flush',))
